@@ -19,7 +19,7 @@ from lib import templates as T
 from lib import projects as PJ
 
 D = T.DIMS
-CONSUMERS = D["consumer"] + ["modattr"]     # + `from pkg import _impl; B = _impl.X`
+CONSUMERS = D["consumer"] + ["modattr", "modalias_root"]     # + `from pkg import _impl; B = _impl.X`, + module alias with a local name `pkg`
 
 
 def hierarchy_by_site(s):
@@ -72,14 +72,14 @@ def check_schedule(kw, si, shadow=False):
         return True
     diff = sorted(k for k in set(d0) | set(d1) if d0.get(k) != d1.get(k))
     moved = exporter is not None and not (kw["reexp"] == "pkg_star" and kw["origin_all"] == "without") and kw["origin_all"] != "with"
-    if moved and kw["consumer"] in ("old", "both", "modalias", "modattr") and only_unresolved_differs(s0, s1):
+    if moved and kw["consumer"] in ("old", "both", "modalias", "modattr", "modalias_root") and only_unresolved_differs(s0, s1):
         key = "C06:consumer-naming-the-defining-module-of-a-moved-object-resolves-only-if-processed-first"
         if known(key):
             return True
         note(why="documented model depends on the processing order", key=key, shape=kw, order0=scheds[0], order=scheds[si], differing=diff[:6],
              base={k: d0.get(k) for k in diff[:3]}, other={k: d1.get(k) for k in diff[:3]})
         return False
-    if shadow and kw["cycle"] and kw["consumer"] in ("modalias", "modattr", "old", "both"):
+    if shadow and kw["cycle"] and kw["consumer"] in ("modalias", "modattr", "modalias_root", "old", "both"):
         key = "C06:import-cycle-while-a-star-imported-name-is-not-yet-overridden-base-resolves-to-the-shadowed-object"
         if known(key):
             return True
